@@ -261,8 +261,8 @@ def nextB : List Nat → Nat × List Nat
 
 /-- Flat rendering of a tree over atom texts. `sym` gives an operator's symbol by key
     (regenerated operator table), `pad = true` surrounds binary symbols with one mandatory blank
-    (logical symbols; the numerical symbols ` + ` … carry their blanks). A blank always follows an
-    argument separator. -/
+    (logical symbols; the numerical symbols ` + ` … carry their blanks). Blanks around an argument
+    separator are optional. -/
 def render (sym : String → List Char) (pad : Bool) : E (List Char) → List Nat → List Char × List Nat
   | .lit t, b => (t, b)
   | .par e, b =>
@@ -281,7 +281,7 @@ def render (sym : String → List Char) (pad : Bool) : E (List Char) → List Na
     let (n2, b) := nextB b
     let (s2, b) := render sym pad y b
     let (n3, b) := nextB b
-    (sym f ++ blanks n1 ++ s1 ++ blanks n2 ++ [','] ++ blanks (n3 + 1) ++ s2 ++ [')'], b)
+    (sym f ++ blanks n1 ++ s1 ++ blanks n2 ++ [','] ++ blanks n3 ++ s2 ++ [')'], b)
   | .pre u e, b =>
     let (n1, b) := nextB b
     let (s, b) := render sym pad e b
